@@ -6,7 +6,7 @@ loop_contracts = false
 timeout = 120
 function = "DetailedPlacer::legalize, DetailedPlacer::place (place_detailed.cpp), GlobalPlacer::place (place_global.cpp): order of parameter check, run, export and callback"
 variants = [
-  {name = "legalize", enforce = "DetailedPlacer_legalize", defines = ["H_LEGALIZE"], replace = ["ColoquinteParameters_check", "Legalizer_fromIspdCircuit", "Legalizer_run", "Legalizer_meanDistance", "Legalizer_exportPlacement", "Callback_call"]},
+  {name = "legalize", enforce = "DetailedPlacer_legalize", defines = ["H_LEGALIZE"], replace = ["ColoquinteParameters_check", "PartialParameters_check", "Legalizer_fromIspdCircuit", "Legalizer_run", "Legalizer_meanDistance", "Legalizer_exportPlacement", "Callback_call"]},
   {name = "dplace", enforce = "DetailedPlacer_place", defines = ["H_DPLACE"], replace = ["ColoquinteParameters_check", "DetailedPlacer_legalize", "Circuit_legalize", "DetailedPlacer_ctor", "DetailedPlacer_check", "DetailedPlacer_run", "DetailedPlacer_exportPlacement"]},
   {name = "gplace", enforce = "GlobalPlacer_place", defines = ["H_GPLACE"], replace = ["ColoquinteParameters_check", "GlobalPlacer_ctor", "GlobalPlacer_run", "GlobalPlacer_exportPlacement"]},
 ]
@@ -41,6 +41,9 @@ __CPROVER_assigns(verif_exc, g_checked);
 #define DROP_IO [ ['std::cout\s*<<[^;]*;', '1+'], ['auto (startTime|endTime) = std::chrono::steady_clock::now\(\);', '2'], ['std::chrono::duration<float> duration = endTime - startTime;', '1'] ]
 
 #ifdef H_LEGALIZE
+/* a check of only a part of the parameter set does not establish 'the whole set was accepted' */
+void PartialParameters_check(const ColoquinteParameters *params)
+__CPROVER_requires(1) __CPROVER_ensures(g_pos_version == __CPROVER_old(g_pos_version)) __CPROVER_assigns(verif_exc);
 Legalizer Legalizer_fromIspdCircuit(const Circuit *circuit)
 __CPROVER_requires(g_checked)   /* C19: nothing is built from a circuit before the parameters were accepted */
 __CPROVER_ensures(!verif_exc ==> g_built)
@@ -71,7 +74,8 @@ __CPROVER_assigns(verif_exc, g_checked, g_built, g_ran, g_exported, g_pos_versio
 file = "src/place_detailed/place_detailed.cpp"
 head = 'void DetailedPlacer::legalize\('
 drop = [ ['std::cout\s*<<[^;]*;', '1+'], ['auto (?:startTime|endTime) = std::chrono::steady_clock::now\(\);', '2'], ['std::chrono::duration<float> duration = endTime - startTime;', '1'] ]
-rewrites = [['params\.check\(\);', 'ColoquinteParameters_check(params); VERIF_PROPAGATE;', '1+'],
+rewrites = [['params\.check\(\);', 'ColoquinteParameters_check(params); VERIF_PROPAGATE;', '*'],
+  ['params\.(\w+)\.check\(\);', 'PartialParameters_check(params); VERIF_PROPAGATE;', '*'],
   ['Legalizer leg = Legalizer::fromIspdCircuit\(circuit\);', 'Legalizer leg = Legalizer_fromIspdCircuit(circuit_p); VERIF_PROPAGATE;', '1+'],
   ['leg\.run\(params\);', 'Legalizer_run(&leg, params); VERIF_PROPAGATE;', '1+'],
   ['leg\.meanDistance\(params\.legalization\.costModel\)', 'Legalizer_meanDistance(&leg)', '1'],
